@@ -201,6 +201,15 @@ func checkC14(p *Program, r *Report) {
 	} else {
 		r.Unresolved("C14.every", "gcs.BuildGCSFilter")
 	}
+	// ---- C14.accepts: FromNBytes / FromNPBytes / FromBytes refuse for the format's own reasons only
+	for _, name := range []string{"FromNBytes", "FromNPBytes", "FromPBytes", "FromBytes"} {
+		if fn := p.Func("gcs", name); fn != nil {
+			rejectionVocabulary(p, r, "C14.accepts", fn, []string{`call .*ReadVarInt#\d`, `call .*ReadVarInt`, `call .*ReadByte#\d`, `call .*Read#\d`, `call .*ReadFull#\d`, `param P`, `param M`, `param N`, `call .*FromBytes#\d`, `call .*FromNBytes#\d`},
+				"read errors of the header, the 2^32 bound on N and the bound on P")
+		}
+	}
+	// ---- C14.data: the filter's bytes are the writer's bytes
+	c14dataIsWriterBytes(p, r)
 	// ---- C14.order
 	want := map[string][]string{
 		"NBytes":  {"varint B.‹uint32›", "bytes B.‹[]byte›"},
@@ -915,4 +924,68 @@ func rangesWhole(b *ssa.BasicBlock, ia *ssa.IndexAddr) bool {
 		}
 	}
 	return false
+}
+
+// c14dataIsWriterBytes: what BuildGCSFilter stores as the filter's data is the result of Bytes() on the very bit writer
+// the code words were written to — not a re-sized or re-assembled copy, whose length would have to be recomputed.
+func c14dataIsWriterBytes(p *Program, r *Report) {
+	bld := p.Func("gcs", "BuildGCSFilter")
+	if bld == nil {
+		r.Unresolved("C14.data", "gcs.BuildGCSFilter")
+		return
+	}
+	var writer ssa.Value
+	n := 0
+	for _, fn := range p.Reachable([]*ssa.Function{bld}) {
+		if fn.Pkg != bld.Pkg {
+			continue
+		}
+		for _, b := range fn.Blocks {
+			for _, in := range b.Instrs {
+				if c, ok := in.(*ssa.Call); ok && fn == bld {
+					if cal := c.Call.StaticCallee(); cal != nil && strings.Contains(cal.String(), "bstream") && (cal.Name() == "WriteBits" || cal.Name() == "WriteBit") {
+						writer = c.Call.Args[0]
+					}
+				}
+			}
+		}
+	}
+	for _, b := range bld.Blocks {
+		for _, in := range b.Instrs {
+			st, ok := in.(*ssa.Store)
+			if !ok {
+				continue
+			}
+			fa, ok := st.Addr.(*ssa.FieldAddr)
+			if !ok {
+				continue
+			}
+			sl, isSl := fieldOfAddr(fa).Type().Underlying().(*types.Slice)
+			if !isSl {
+				continue
+			}
+			if eb, ok := sl.Elem().Underlying().(*types.Basic); !ok || eb.Kind() != types.Uint8 {
+				continue
+			}
+			if isNilConst(st.Val) {
+				continue
+			}
+			n++
+			okW, how := false, "stored value "+exprString(st.Val)+" is not the writer's Bytes()"
+			if c, ok := st.Val.(*ssa.Call); ok {
+				if cal := c.Call.StaticCallee(); cal != nil && strings.Contains(cal.String(), "bstream") && cal.Name() == "Bytes" {
+					if writer == nil || c.Call.Args[0] == writer {
+						okW, how = true, "Bytes() of the bit writer the code words went to"
+					} else {
+						how = "Bytes() of a different writer than the one written to"
+					}
+				}
+			}
+			r.Add("C14.data", FnName(bld), "the filter's data is the bit writer's output, as is", st.Pos(), okW, how)
+		}
+	}
+	if n == 0 {
+		r.Unresolved("C14.data", "store of the filter data in gcs.BuildGCSFilter")
+	}
+	r.Floor("C14.data", 1)
 }
